@@ -33,7 +33,7 @@ func Relay(name string, tags map[string]bool) *vtx.Profile {
 	}
 
 	return &vtx.Profile{
-		Name: name, Configs: cfgs, Clients: []string{"c1", "c2"}, Peers: []string{"A", "A2", "B", "V6"},
+		Name: name, Configs: cfgs, Clients: []string{"c1", "c2"}, Peers: []string{"A", "A2", "B", "V6", "V6b"},
 		Chans: []uint16{N1, N2}, Depth: depth, Drain: true, Tags: tags,
 		Menu: func(m *vtx.Model, now time.Time, _ int) []vtx.Event {
 			var e []vtx.Event
@@ -42,6 +42,8 @@ func Relay(name string, tags map[string]bool) *vtx.Profile {
 			} else {
 				e = append(e, vtx.Event{K: "refresh", C: "c1", L: 0},
 					E("perm", "c1", 0, "A"), E("perm", "c1", 0, "B"), E("perm", "c1", 0, "A", "B"), E("perm", "c1", 0, "V6"),
+					// mixed address families in one request, either order: refused as a whole whatever the allocation's family
+					E("perm", "c1", 0, "A", "V6"), E("perm", "c1", 0, "V6", "A"),
 					E("chan", "c1", N1, "A"), E("chan", "c1", N1, "B"), E("chan", "c1", N2, "V6"), E("chan", "c1", N2, "A2"))
 			}
 			if m.Allocs["c2"] == nil {
